@@ -635,7 +635,10 @@ func (p *InlineParser) parseBackslash(state *inlineState, start int) (end int) {
 		})
 		return end
 	}
-	end = start + 2
+	// A literal backslash.
+	// The following byte may be part of a multi-byte character,
+	// so it is left for the caller to tokenize.
+	end = start + 1
 	state.addToRoot(&Inline{
 		kind: TextKind,
 		span: Span{
